@@ -1,52 +1,107 @@
 #!/usr/bin/env python3
-"""applies every seeded/<id>/patch.diff to /repo in turn, runs the quick check of its property (and of the checks named in ALSO),
-reverts, and writes seeded/RESULTS.md + RESULTS.json.  /repo must be clean and nothing else may use it meanwhile."""
+"""runs the quick check of every seeded change's property (and of the checks named in ALSO) against the change and writes
+seeded/RESULTS.md + RESULTS.json.
+
+Each patch is applied in its OWN scratch worktree of /repo HEAD under /tmp (removed afterwards); the check runs against that
+worktree through the development override EAO_REPO, so /repo itself is not touched, evidence/ is not rewritten and several
+changes run in parallel.  Exception: C11 regenerates the schema model from the source it checks, so the C11 changes are applied
+to /repo itself, one after the other, and the schema model is regenerated from the clean tree afterwards.
+
+usage: tools/seeded_matrix.py [-j N] [id ...]"""
 import json, os, re, subprocess, sys
+from concurrent.futures import ThreadPoolExecutor
 ROOT = os.path.dirname(os.path.dirname(os.path.abspath(__file__)))
-ALSO = {'C01-1': [], 'C05-1': [], 'C06-2': [], 'C07-2': ['C14'], 'C11-1': [], 'C12-1': ['C14'], 'C13-1': [], 'C15-2': ['C05', 'C07'], 'C20-1': ['C10'],
-        'C02-1': ['C10'], 'C04-2': [], 'C09-2': ['C10'], 'C10-1': [], 'C14-1': ['C01'], 'C18-1': ['C14'], 'C20-2': ['C07', 'C08'],
-        'C08-4': ['C20'], 'C09-3': ['C10'], 'C10-4': ['C09'], 'C17-4': ['C16'], 'C04-3': ['C14'], 'C15-4': ['C10'], 'C20-4': ['C08'], 'C06-4': ['C12']}
-only = sys.argv[1:]
+ALSO = {'C07-2': ['C14'], 'C12-1': ['C14'], 'C15-2': ['C05', 'C07'], 'C20-1': ['C10'], 'C02-1': ['C10'], 'C09-2': ['C10'], 'C14-1': ['C01'],
+        'C18-1': ['C14'], 'C20-2': ['C07', 'C08'], 'C08-4': ['C20'], 'C09-3': ['C10'], 'C10-4': ['C09'], 'C17-4': ['C16'], 'C04-3': ['C14', 'C07'],
+        'C15-4': ['C10'], 'C20-4': ['C08'], 'C06-4': ['C12'], 'C02-4': ['C05'], 'C12-4': ['C13'], 'C08-3': ['C14'], 'C07-3': ['C04'], 'C18-3': ['C14']}
+args = sys.argv[1:]
+jobs = 4
+if args[:1] == ['-j']:
+    jobs = int(args[1])
+    args = args[2:]
+only = args
 
 
 def sh(cmd, **kw):
     return subprocess.run(cmd, capture_output=True, text=True, **kw)
 
 
-assert sh(['git', '-C', '/repo', 'status', '--short', '--', 'eaopack']).stdout.strip() == '', '/repo not clean'
-head = sh(['git', '-C', '/repo', 'rev-parse', '--short', 'HEAD']).stdout.strip()
-res = {}
-if os.path.exists(os.path.join(ROOT, 'seeded', 'RESULTS.json')):
-    res = json.load(open(os.path.join(ROOT, 'seeded', 'RESULTS.json'))).get('results', {})
-ids = sorted(d for d in os.listdir(os.path.join(ROOT, 'seeded')) if os.path.isdir(os.path.join(ROOT, 'seeded', d)))
-for sid in ids:
-    if only and sid not in only:
-        continue
-    patch = os.path.join(ROOT, 'seeded', sid, 'patch.diff')
+def verdict_of(stdout):
+    lines = [l for l in stdout.split('\n') if re.match(r'^(VIOLATION|OK|TIMEOUT|  oracle|  broken|  first)', l)]
+    verdict = 'caught' if any(l.startswith('VIOLATION') and 'no-failing-input-found' not in l for l in lines) else (
+        'caught (no-failing-input-found)' if any(l.startswith('VIOLATION') for l in lines) else 'missed')
+    detail = next((l.strip()[:260] for l in lines if l.startswith('  oracle') or l.startswith('  first') or l.startswith('  broken')), '')
+    return verdict, detail
+
+
+def run_wt(sid):
     prop = sid.split('-')[0]
-    if sh(['git', '-C', '/repo', 'apply', patch]).returncode != 0:
-        res[sid] = {'error': 'patch does not apply to %s' % head}
-        continue
+    wt = '/tmp/wtm_' + sid
+    sh(['rm', '-rf', wt])
+    import time
+    for attempt in range(5):    # (parallel `worktree add` calls may collide on git's lock)
+        if sh(['git', '-C', '/repo', 'worktree', 'add', '-q', '--detach', wt, 'HEAD']).returncode == 0:
+            break
+        time.sleep(1 + attempt)
+    else:
+        return sid, {'error': 'worktree failed'}
+    try:
+        if sh(['git', '-C', wt, 'apply', os.path.join(ROOT, 'seeded', sid, 'patch.diff')]).returncode != 0:
+            return sid, {'error': 'patch does not apply to %s' % head}
+        out = {}
+        for chk in [prop] + ALSO.get(sid, []):
+            env = dict(os.environ, EAO_REPO=wt, VERIF_PROCS=str(max(4, 16 // jobs)))
+            p = sh(['/venv/bin/python', 'harness/check.py', chk], cwd=ROOT, timeout=3000, env=env)
+            v, d = verdict_of(p.stdout)
+            out[chk] = {'verdict': v, 'detail': d, 'exit': p.returncode}
+            print(sid, chk, v, d[:120], flush=True)
+        return sid, {'base': head, 'checks': out}
+    finally:
+        sh(['git', '-C', '/repo', 'worktree', 'remove', '--force', wt])
+        sh(['rm', '-rf', wt])
+
+
+def run_in_repo(sid):
+    prop = sid.split('-')[0]
+    assert sh(['git', '-C', '/repo', 'status', '--short', '--', 'eaopack']).stdout.strip() == '', '/repo not clean'
+    if sh(['git', '-C', '/repo', 'apply', os.path.join(ROOT, 'seeded', sid, 'patch.diff')]).returncode != 0:
+        return sid, {'error': 'patch does not apply to %s' % head}
     try:
         out = {}
         for chk in [prop] + ALSO.get(sid, []):
             p = sh(['/venv/bin/python', 'harness/check.py', chk], cwd=ROOT, timeout=3000)
-            lines = [l for l in p.stdout.split('\n') if re.match(r'^(VIOLATION|OK|TIMEOUT|  oracle|  broken|  first)', l)]
-            verdict = 'caught' if any(l.startswith('VIOLATION') and 'no-failing-input-found' not in l for l in lines) else (
-                'caught (no-failing-input-found)' if any(l.startswith('VIOLATION') for l in lines) else 'missed')
-            detail = next((l.strip()[:260] for l in lines if l.startswith('  oracle') or l.startswith('  first') or l.startswith('  broken')), '')
-            out[chk] = {'verdict': verdict, 'detail': detail, 'exit': p.returncode}
-            print(sid, chk, verdict, detail[:120], flush=True)
-        res[sid] = {'base': head, 'checks': out}
+            v, d = verdict_of(p.stdout)
+            out[chk] = {'verdict': v, 'detail': d, 'exit': p.returncode}
+            print(sid, chk, v, d[:120], flush=True)
+        return sid, {'base': head, 'checks': out}
     finally:
         sh(['git', '-C', '/repo', 'checkout', '--', '.'])
-# the C11 check regenerates the schema model from the (patched) source, and every run rewrites evidence: restore both
-sh(['/venv/bin/python', 'harness/schema_gen.py', '--repo', '/repo', '--out', 'lean/EAO/Generated/Schema.lean'], cwd=ROOT)
-sh(['git', 'checkout', '--', 'evidence'], cwd=ROOT)
-json.dump({'base': head, 'results': res}, open(os.path.join(ROOT, 'seeded', 'RESULTS.json'), 'w'), indent=1)
+
+
+head = sh(['git', '-C', '/repo', 'rev-parse', '--short', 'HEAD']).stdout.strip()
+res = {}
+rj = os.path.join(ROOT, 'seeded', 'RESULTS.json')
+if os.path.exists(rj):
+    res = json.load(open(rj)).get('results', {})
+ids = sorted(d for d in os.listdir(os.path.join(ROOT, 'seeded')) if os.path.isdir(os.path.join(ROOT, 'seeded', d)))
+ids = [i for i in ids if not only or i in only]
+wt_ids = [i for i in ids if not i.startswith('C11-')]
+with ThreadPoolExecutor(jobs) as ex:
+    for sid, r in ex.map(run_wt, wt_ids):
+        res[sid] = r
+c11 = [i for i in ids if i.startswith('C11-')]
+if c11:
+    keep = open(os.path.join(ROOT, 'evidence', 'C11.json')).read()      # keep the evidence of the clean tree
+    for sid in c11:
+        sid, r = run_in_repo(sid)
+        res[sid] = r
+    sh(['/venv/bin/python', 'harness/schema_gen.py', '--repo', '/repo', '--out', 'lean/EAO/Generated/Schema.lean'], cwd=ROOT)
+    open(os.path.join(ROOT, 'evidence', 'C11.json'), 'w').write(keep)
+json.dump({'base': head, 'results': res}, open(rj, 'w'), indent=1)
 with open(os.path.join(ROOT, 'seeded', 'RESULTS.md'), 'w') as f:
-    f.write('# Seeded changes vs checks (quick tier, VERIF_SEED=0)\n\nEach patch applied to /repo, the check(s) run, the patch reverted (`tools/seeded_matrix.py`).\n'
-            '"caught" = VIOLATION with a concrete failing input on the real code; "caught (no-failing-input-found)" = the tie (correspondence / translator / hypothesis) broke and the oracles of the quick stream did not hit a failing input.\n\n')
+    f.write('# Seeded changes vs checks (quick tier, VERIF_SEED=0)\n\nEach patch applied in a scratch worktree of /repo HEAD (C11: in /repo itself), the check(s) run against it, the worktree removed (`tools/seeded_matrix.py`).\n'
+            '"caught" = VIOLATION with a concrete failing input on the real code; "caught (no-failing-input-found)" = the tie (correspondence / translator / hypothesis) broke and the oracles of the quick stream did not hit a failing input.\n'
+            'The first check listed per change is the one of its own property; further rows are other checks tried against the same change.\n\n')
     f.write('| id | what the change needs | check | verdict | first line of the report |\n|----|----|----|----|----|\n')
     for sid in sorted(res):
         meta = {}
@@ -61,3 +116,4 @@ with open(os.path.join(ROOT, 'seeded', 'RESULTS.md'), 'w') as f:
         for chk, o in res[sid]['checks'].items():
             f.write('| %s | %s | %s | %s | %s |\n' % (sid, needs, chk, o['verdict'], o['detail'].replace('|', '/')))
             needs = ''
+print('written', rj)
